@@ -361,7 +361,13 @@ def c19(res):
     res.models.append(prove("SolverPackingProof", wd))
     res.models.append(model_check("Solver", "Solver.cfg", wd, workers=8, timeout=3000))
     trace = os.path.join(wd, "trace.ndjson")
-    if not run_recorder(res, "c19", [res.tier, trace], wd, timeout=6000):
+    rc, text = record("c19", [res.tier, trace], wd, env={"VERIF_SEED": str(res.seed)}, timeout=6000)
+    if rc == 3:
+        # the recorder's watchdog: one solve did not return (and emitted no hook event) for two minutes; what was recorded
+        # before is judged, the hang is not a verdict
+        print("SPEC-DRIFT property=C19 a solve did not return within the recorder's two-minute watchdog (not a violation); exploration stopped there")
+    elif rc != 0:
+        crash_violation(res, "c19", rc, text, res.tier)
         return res.finish("recorder crashed")
     n, rej = validate("Trace_C19", trace, wd, timeout=3000)
     res.validated = n - len(rej)
